@@ -48,7 +48,7 @@ func init() {
 		Explanation: "L1: every record passed to Create/CasByVersion has ExpiresAt = now + lease. L2: between the Create success edge and the success exit a renewal is armed with timeout.Call(fn, lease/k), k>=2, fn reaching the renewal routine with that Create's version, and stored in the Locker's timer slot. " +
 			"L3: the renewal's CAS success edge re-arms with the new version; exits after a definitive loss (ErrNotExist/ErrConflict) arm nothing and write nothing. L4: every exit of the renewal that arms nothing is dominated by a positive class test for ErrNotExist or ErrConflict (a transient error must not end the chain). " +
 			"L8: the renewal writes only by CasByVersion; a retry after an error is armed only when both ErrNotExist and ErrConflict were excluded. L5: the renewal is a CAS on the Locker's key with the tenure's version. L6: the renewal does not use the acquisition's context. L7: Unlock cancels the armed timer before deleting the record. " +
-			"T1-T7: the timer keeps heap indices current and Cancel is guarded (C12 rules). U1-U6: a queued renewal is not slept through (C13 rules). E1/E2: the in-memory store treats an expired record as absent and bounds a parked waiter by the expiry (dead-holder clause). L9: the renewal cancels the timer it has just armed under a condition that reads the Locker's held flag / tenure - the compare-and-swap of the timer slot alone does not see an Unlock (open finding). L10: Unlock deletes the lock record on every path (the Delete is what makes a renewal that is still in flight - see L9 - fail on the version and die out; a record that survives Unlock is renewed for ever).",
+			"T1-T7: the timer keeps heap indices current and Cancel is guarded (C12 rules). U1-U9: a queued renewal is not slept through (C13 rules). U10: the timer worker waits only with a time bound - a blocking select has a timer case, a bare receive is a receive from a timer (C13.R10): a worker blocked for good is still counted, the others retire around it and the renewal is not started. E1/E2: the in-memory store treats an expired record as absent and bounds a parked waiter by the expiry (dead-holder clause). L9: the renewal cancels the timer it has just armed under a condition that reads the Locker's held flag / tenure - the compare-and-swap of the timer slot alone does not see an Unlock (open finding). L10: Unlock deletes the lock record on every path (the Delete is what makes a renewal that is still in flight - see L9 - fail on the version and die out; a record that survives Unlock is renewed for ever).",
 		NotDecided: "every timing statement ('within about one lease period'), clock behaviour.",
 	})
 }
